@@ -92,6 +92,9 @@ XercesDOMParsedSource::XercesDOMParsedSource(
     m_parsedSource(0),
     m_uri(theManager)
 {
+    // The parsed source may be shared between threads (see docs/faq.md),
+    // so the wrapper document needs the synchronized string pool.
+    m_parserLiaison.setThreadSafe(true);
     m_parserLiaison.setUseValidation(fValidate);
     m_parserLiaison.setEntityResolver(theEntityResolver);
     m_parserLiaison.setXMLEntityResolver(theXMLEntityResolver);
